@@ -21,6 +21,7 @@ import (
 type c04TxSpec struct {
 	Ops []*c04Node `json:"ops"`
 	Gas int64      `json:"gas,omitempty"` // system fee override (small = the transaction runs out of gas)
+	Snd int        `json:"snd,omitempty"` // who pays: 0 the committee account, 1 / 2 account 5 / 6
 	End string     `json:"end,omitempty"` // what the generator meant this transaction to be (informative)
 }
 
@@ -75,7 +76,7 @@ func c04GenEnder(r *rng) c04TxSpec {
 	abort := func() *c04Node { return n04("abort", "v", r.intn(3)) }
 	switch r.intn(12) {
 	case 0:
-		g := &c04Gen{r: r, guarded: true, fail: 0}
+		g := &c04Gen{r: r, guarded: true, fail: 0, noNeo: true}
 		return c04TxSpec{Ops: g.entry(2), End: "random-nofail"}
 	case 1: // uncaught throw at entry level after effects
 		return c04TxSpec{Ops: []*c04Node{call(ct(), put(), ntf()), n04("throw")}, End: "throw-entry"}
@@ -94,12 +95,12 @@ func c04GenEnder(r *rng) c04TxSpec {
 	case 8: // exception pending while a callee of the finally block faults (entry level try/finally)
 		return c04TxSpec{Ops: []*c04Node{n04("try", "body", call(ct(), put(), n04("throw")), "fin", n04("abort", "v", r.intn(3)))}, End: "entry-finally-abort"}
 	case 9: // out of gas somewhere in the middle
-		g := &c04Gen{r: r, guarded: true, fail: 0}
+		g := &c04Gen{r: r, guarded: true, fail: 0, noNeo: true}
 		return c04TxSpec{Ops: append([]*c04Node{call(ct(), put(), ntf())}, g.entry(2)...), Gas: int64(150_0000 + r.intn(8)*60_0000), End: "out-of-gas"}
 	case 10: // halts after catching a failure (the register has been set and cleared; layers pushed and dropped)
 		return c04TxSpec{Ops: []*c04Node{call(ct(), put(), n04("try", "body", call(ct(), put(), ntf(), n04("throw")), "catch", put()), ntf())}, End: "halt-after-catch"}
 	}
-	g := &c04Gen{r: r, guarded: true, fail: 10 + r.intn(10)}
+	g := &c04Gen{r: r, guarded: true, fail: 10 + r.intn(10), noNeo: true}
 	return c04TxSpec{Ops: g.entry(2 + r.intn(2)), End: "random"}
 }
 
@@ -110,7 +111,7 @@ func c04GenLater(r *rng) c04TxSpec {
 	ntf := func() *c04Node { return n04("notify", "v", r.intn(10)) }
 	call := func(c int, body ...*c04Node) *c04Node { return n04("call", "c", c, "flags", 15, "body", c04SeqOf(body)) }
 	if r.chance(25) {
-		g := &c04Gen{r: r, guarded: true, fail: 8 + r.intn(8)}
+		g := &c04Gen{r: r, guarded: true, fail: 8 + r.intn(8), noNeo: true}
 		return c04TxSpec{Ops: g.entry(2 + r.intn(2)), End: "later-random"}
 	}
 	body := []*c04Node{put(), ntf(),
@@ -122,7 +123,7 @@ func c04GenLater(r *rng) c04TxSpec {
 		body = append(body, n04("try", "body", n04("setfee", "v", 900+50*r.intn(5)), "catch", n04("skip")))
 	}
 	if r.bool() {
-		body = append(body, n04("try", "body", n04("move", "c", r.intn(c04NContracts+c04NPlain), "v", pick(r, c04Amounts), "body", put()), "fin", ntf()))
+		body = append(body, n04("try", "body", n04("move", "c", r.intn(c04NAcc), "v", pick(r, c04Amounts), "body", put()), "fin", ntf()))
 	}
 	body = append(body, n04("notifyval", "k", r.intn(c04NKeys)), n04("notifyfee"))
 	ops := []*c04Node{call(ct(), body...)}
@@ -142,17 +143,21 @@ func (p *c04Pair) runBlock(co *caseOut, in c04BlockInput) {
 		if k, _ := c04Class(root); k != "tree" {
 			panic("c04: block cases carry guarded trees only")
 		}
+		if root.any(func(x *c04Node) bool { return x.tag() == c04MoveNeo }) {
+			panic("c04: block cases carry no NEO transfers (claims depend on the block height)")
+		}
 	}
 	cur := p.a.observe()
-	if !reflect.DeepEqual(cur, in.Pre) {
+	if !cur.samePre(in.Pre) {
 		if err := p.setup(cur, in.Pre); err != nil {
 			panic(fmt.Sprintf("c04 setup: %v", err))
 		}
 		cur = p.a.observe()
-		if !reflect.DeepEqual(cur, in.Pre) {
+		if !cur.samePre(in.Pre) {
 			panic(fmt.Sprintf("c04 setup did not reach the pre-state: %+v vs %+v", cur, in.Pre))
 		}
 	}
+	in.Pre.Claim = cur.Claim
 	if len(in.Ops) == 0 {
 		return
 	}
@@ -162,7 +167,7 @@ func (p *c04Pair) runBlock(co *caseOut, in c04BlockInput) {
 		if t.Gas > 0 {
 			fee = t.Gas
 		}
-		txs = append(txs, p.a.newTxUntil(p.a.env.entryScript(c04SeqOf(t.Ops)), fee, uint32(len(in.Ops))+2))
+		txs = append(txs, p.a.newTxFrom(t.Snd-1, p.a.env.entryScript(c04SeqOf(t.Ops)), fee, uint32(len(in.Ops))+2))
 	}
 	// chain A: all in one block; chain B: one per block; then A is padded to the same height
 	if err := p.a.addBlock(txs...); err != nil {
@@ -201,7 +206,7 @@ func (p *c04Pair) runBlock(co *caseOut, in c04BlockInput) {
 				i, ra.VMState, rb.VMState, len(ra.Events), len(rb.Events)), in, impl)
 		}
 	}
-	if pb := p.b.observe(); !reflect.DeepEqual(impl.Post, pb) {
+	if pb := p.b.observe(); !impl.Post.same(pb) {
 		co.violation(kind, "final storage / balances / Policy setting differ from the same transactions spread one per block", in, impl)
 	} else if ra, rb := p.a.stateRoot(), p.b.stateRoot(); ra != rb {
 		co.violation(kind, "state root differs from the same transactions spread one per block: "+strings.Join(c04SameMap(p.a.dumpAll(), p.b.dumpAll()), "; "), in, impl)
@@ -217,10 +222,11 @@ func (p *c04Pair) runBlock(co *caseOut, in c04BlockInput) {
 		for j, e := range ti.Events {
 			evs[j] = e.coq()
 		}
-		ts = append(ts, fmt.Sprintf("(%s, %s, %s, %s)", coqBool(ti.OOG), c04SeqOf(t.Ops).coq(), coqBool(ti.Halt), coqList(evs)))
+		ts = append(ts, fmt.Sprintf("(%s, %d, %d, %s, %s, %s)", coqBool(ti.OOG), c04SenderN(t.Snd), txs[i].SystemFee+txs[i].NetworkFee,
+			c04SeqOf(t.Ops).coq(), coqBool(ti.Halt), coqList(evs)))
 	}
-	term := fmt.Sprintf("CBlock %s %s %d %s %s %s %d %d", c04Coq3(in.Pre.Store), c04CoqInts(in.Pre.Bal), in.Pre.FeeCache,
-		coqList(ts), c04Coq3(impl.Post.Store), c04CoqInts(impl.Post.Bal), max(impl.Post.FeeCache, 0), max(impl.Post.FeeStore, 0))
+	term := fmt.Sprintf("CBlock %s %d 0 %s %s %d %d %d", in.Pre.coqEntries(true), in.Pre.FeeCache,
+		coqList(ts), impl.Post.coqEntries(false), max(impl.Post.FeeCache, 0), max(impl.Post.FeeStore, 0), c04CoqB(impl.Post.VC))
 	nontriv := false
 	for i := 0; i+1 < len(impl.Txs); i++ {
 		if !impl.Txs[i].Halt {
